@@ -449,20 +449,24 @@ def execute(plan):
                 dd.update(det)
                 viol.append({'sig': s, 'detail': dd, 'plan': rp})
 
+            # the restarted server is the FIRST thing to touch the surviving
+            # file (a hot journal is still there for it to deal with); the
+            # harness reads the tables itself only afterwards
+            try:
+                restore(present['kstate'])
+                w = world.World(plan['actors'], None, workdir=d, reset=False)
+            except Exception as e:
+                flag('engine-cannot-open', error=repr(e)[:300])
+                continue
             raw = []
             try:
                 raw = crash.raw_check(dbp)
             except Exception as e:
                 flag('store-unreadable', error=repr(e))
+                w.close()
                 continue
             if raw:
                 flag('raw-tables-inconsistent', problems=raw[:5])
-            try:
-                restore(present['kstate'])
-                w = world.World(plan['actors'], None, workdir=d, reset=False)
-            except Exception as e:
-                flag('engine-cannot-open', error=repr(e))
-                continue
             try:
                 dump = world_jsonable(w.dump())
                 if mode != crash.KILL:
